@@ -58,6 +58,11 @@ pub fn evaluate_join<'a>(in_terms: &'a Vec<Unifiable>,
     let mut out = "".to_string();
     let mut first = true;
     for term in all_terms {
+        // A term of a list may be a bound variable. Get its value.
+        let term = match get_ground_term(&term, ss) {
+            Some(ground_term) => { ground_term.clone() },
+            None => { term },
+        };
         let s = format!("{}", term);
         if is_punctuation(&s) {
             out += &s;
